@@ -49,6 +49,16 @@ Proof. exact dfs_visits_linear. Qed.
 Goal True. idtac "ASSUMPTIONS ordering_loop_linear". Abort.
 Print Assumptions ordering_loop_linear.
 
+(* ... and calls zero_() at most that many times (the buffers of the reached tensors are reset inside the same loop,
+   once per operand slot at most - never once per path) *)
+Theorem zero_calls_linear :
+  forall g root present0 ord z p, wf g -> root < length g ->
+    dfs g root present0 (dfs_fuel g) = Some (ord, z, p) ->
+    length z <= list_sum (map (fun n => 1 + length (children (getn g n))) ord).
+Proof. exact zero_calls_linear. Qed.
+Goal True. idtac "ASSUMPTIONS zero_calls_linear". Abort.
+Print Assumptions zero_calls_linear.
+
 (* results computed without tracking keep nothing: what the wrappers build when no operand requires grad or
    gradient mode is off has no children ... *)
 Theorem untracked_keep_nothing :
@@ -86,6 +96,17 @@ Example deep_chain :
   let n := 400 in
   match backward ZAlg (chain n) (fun _ _ => 1%Z) false n 1%Z (fun _ => None) with
   | Some (b, log) => length log = n /\ b 0 = Some 1%Z /\ b 1 = None /\ b n = Some 1%Z
+  | None => False
+  end.
+Proof. vm_compute. auto. Qed.
+
+(* 12 stacked diamonds h <- h + h*w: 2^12 paths, 24 closure calls, the seed is multiplied by 2^12 *)
+Definition diamonds (n : nat) : arena :=
+  leafn :: flat_map (fun i => [opn [2 * i]; opn [2 * i; 2 * i + 1]]) (seq 0 n).
+Example stacked_diamonds :
+  let n := 12 in
+  match backward ZAlg (diamonds n) (fun _ _ => 1%Z) false (2 * n) 1%Z (fun _ => None) with
+  | Some (b, log) => length log = 2 * n /\ b 0 = Some 4096%Z /\ length (all_paths (diamonds n) (2 * n) 0) = 4096
   | None => False
   end.
 Proof. vm_compute. auto. Qed.
